@@ -84,6 +84,12 @@ var schedAssumptions = append([]string{
 }, commonAssumptions...)
 
 var specs = []spec{
+	{ID: "C18", Pkg: ".", Level: "exploration", Procs: 2,
+		Rule:        "retention: all periodic words of period <= 2 (3) of every alphabet family on the configuration grid plus one 1200-write (12000-write) word per variant x RAM/disk x SegmentCount {min, min+2}, observing after every write playlist length, files in Directory, URL-table size and that URIs of expired segments no longer resolve; size: depth-5 (7) trees over payload sizes {5,6,8 bytes, key frame} for every SegmentMaxSize in 40..62 (video) / 10..16 (audio) so that the running total lands below, on and above the limit at every position; distinct = distinct (configuration, final playlists, unit counts)",
+		Assumptions: e1Assumptions},
+	{ID: "C16", Pkg: ".", Level: "exploration", Procs: 2,
+		Rule:        "every track list Start accepts with <= 4 tracks (every position of at most one video track among 0..3 audio tracks, codecs H264/H265/VP9/AV1/AAC/Opus, names/languages set or not, IsDefault on none or on each single audio track) x variant x query string, each driven by a word with regular GOPs, parameter changes on and off key frames and bare key frames, index.m3u8 observed after every write; plus depth-N trees over {0, S/2, S} x {RA, RA+parameter switch, non-RA} for zero-duration segments; expected codec strings, resolutions and frame rates come from an independent formatter and mediacommon's test vectors; distinct = distinct (configuration, final playlists)",
+		Assumptions: e1Assumptions},
 	{ID: "C01", Pkg: ".", Level: "exploration", Procs: 2,
 		Rule:        "words over a finite write alphabet (timing family: delta in {0, one frame, S-1 tick, S, 1.4 S} x {random access, not}; parameter family: {one frame, S} x {RA with / without inline parameter sets, non-RA, parameter switch on RA / on non-RA}; interleaving family: all tracks x 2 deltas x 2 kinds, 1- and 2-AU audio writes; audio family) enumerated exhaustively as depth-N trees (from the initial state, after a regular preamble that fills the window, from negative start times) and as all periodic words of period <= 2 (3) run for 12 (16) x SegmentCount writes, on a configuration grid (variant x track set incl. audio-before-video x codecs x RAM/disk x SegmentCount); after every write everything the muxer advertises is fetched through Handle, decoded with mediacommon and compared with a reference model of the written stream; distinct = distinct (configuration, final playlists, emitted-unit counts)",
 		Assumptions: e1Assumptions},
